@@ -59,8 +59,15 @@ class C14(Property):
                 if not any(nat) and rng.random() < 0.3:
                     deg = {i: sum(1 for e in edges if i in e) for i in range(1, n + 1)}
                     faulty = max(deg, key=lambda i: (deg[i], rng.random()))
+                # now and then one node advertises further addresses of its own (here: addresses nothing answers on), up to the seven
+                # the node information can carry per family - with its socket address that makes eight
+                advn, advl = 0, None
+                if not any(nat) and not faulty and rng.random() < 0.3:
+                    advn = rng.randrange(1, n + 1)
+                    advl = list(range(61, 61 + rng.choice([1, 3, 6, 7, 7])))
                 for i in range(1, n + 1):
-                    s.node(i, mode="tun-router", claims=["%s/24" % bytes([10, 0, i, 0]).hex()], nat=nat[i], algos=algos, hkf=(i == faulty))
+                    s.node(i, mode="tun-router", claims=["%s/24" % bytes([10, 0, i, 0]).hex()], nat=nat[i], algos=algos, hkf=(i == faulty),
+                           adv=(advl if i == advn else None))
                 for (a, b), o in zip(edges, orients):
                     # an address-filtering NAT only lets replies in: the NATed end has to dial; two NATed ends dial each other
                     if nat[a] and not nat[b]:
